@@ -134,6 +134,60 @@ def _flatten_stmts(func, stmts, depth, stack, keep=()):
     return out
 
 
+def _decision_expr(stmts, depth=0):
+    """the expression a body made only of if / return statements computes,
+    as nested conditional expressions; None if the body has another shape"""
+    if not stmts or depth > 12:
+        return None
+    st = stmts[0]
+    if isinstance(st, ast.Return):
+        return st.value if st.value is not None else ast.Constant(value=None)
+    if isinstance(st, ast.If):
+        a = _decision_expr(st.body + stmts[1:], depth + 1)
+        b = _decision_expr(st.orelse + stmts[1:], depth + 1)
+        if a is None or b is None:
+            return None
+        return ast.IfExp(test=st.test, body=a, orelse=b)
+    return None
+
+
+class _ExprInliner(ast.NodeTransformer):
+    """replaces calls of private decision-tree helpers (bodies made of if /
+    return only) by the equivalent conditional expression"""
+
+    def __init__(self, func, keep, depth=0):
+        self.func = func
+        self.keep = keep
+        self.depth = depth
+
+    def visit_FunctionDef(self, node):
+        return node
+
+    visit_AsyncFunctionDef = visit_FunctionDef
+    visit_Lambda = visit_FunctionDef
+
+    def visit_Call(self, node):
+        self.generic_visit(node)
+        if self.depth > 2:
+            return node
+        h = _helper_of(self.func, node)
+        if h is None or h.name in self.keep or h is self.func:
+            return node
+        from .model import strip_docstring
+        e = _decision_expr(strip_docstring(h.node.body))
+        if e is None:
+            return node
+        args = _bind_args(h, node)
+        if args is None:
+            return node
+        sub = _Subst(args, h.name + '$', set(binding_order(h.node)))
+        new = sub.visit(copy.deepcopy(e))
+        new = _ExprInliner(h, self.keep, self.depth + 1).visit(new)
+        ast.copy_location(new, node)
+        ast.fix_missing_locations(new)
+        return new
+
+
 _CACHE = {}
 
 
@@ -144,6 +198,8 @@ def flatten(func, keep=()):
     if key not in _CACHE:
         node = copy.deepcopy(func.node)
         node.body = _flatten_stmts(func, node.body, 0, [func.fq], keep)
+        inl = _ExprInliner(func, keep)
+        node.body = [inl.visit(st) for st in node.body]
         ast.fix_missing_locations(node)
         _CACHE[key] = node
     return _CACHE[key]
